@@ -20,6 +20,7 @@ type loopCtx struct {
 	isSwitch  bool
 	spec      *LoopSpec // contract clauses of this loop (break hints), when it is cut at invariants
 	ord       int
+	extra     map[string]*Val // special names (idx_) available to step/break hints
 }
 
 // Frame is one (verified or inlined) function activation.
@@ -411,6 +412,12 @@ func (e *Engine) noteHeapType(name string, t types.Type) {
 // the range of their type, slice headers are well formed, byte strings are not absurdly long. The heap model
 // assumes this of the initial heap and of every heap returned by unknown code; writes are range-checked.
 func (e *Engine) heapWellTyped(name, sym string) string {
+	return e.heapWellTypedBound(name, sym, "")
+}
+
+// heapWellTypedBound: with a bound (the allocation counter at function entry), pointers stored in the heap also
+// refer to objects that exist (every pointer held anywhere at entry points to an object allocated before entry).
+func (e *Engine) heapWellTypedBound(name, sym, bound string) string {
 	t := e.heapTypes[name]
 	if t == nil {
 		return ""
@@ -427,7 +434,7 @@ func (e *Engine) heapWellTyped(name, sym string) string {
 	default:
 		return ""
 	}
-	f := e.typeFact(v, "")
+	f := e.typeFact(v, bound)
 	if f == "true" || isBigInt(t) {
 		return ""
 	}
